@@ -1,7 +1,9 @@
-(* Proof/CodegenForallLin.v with the numeric bounds as PARAMETERS: the bound SM on the pairs of a Substitute (the
-   reference count is raised by less than SM), the bound XM on the xtors of a declared type (tag index below XM) and
-   the test `lit` on literals.  The x86-64 development uses the instance (2^31, 2^28, lit64); AArch64 needs (4096,
-   1024, -), RISC-V (2048, 512, lit64): Sem/WfGuard64.v.  The proofs are those of CodegenForallLin.v. *)
+(* Proof/CodegenForallLin.v with the numeric bounds as PARAMETERS: the bound XM on the xtors of a declared type (tag
+   index below XM), the test `lit` on literals, and a bound SM on the number of copies of one variable made by a
+   Substitute (the reference count is raised by less than SM).  Unlike in the x86-64 development SM is NOT a guard on the
+   program: it follows from the capacity of the back end - fewer than 2 * SM temporaries exist (Hcap), every copy of a
+   variable gets one, copies have distinct positions (targets_bound).  AArch64 uses (4096, 1024, -), RISC-V (2048, 512,
+   lit64): Sem/WfGuard64.v.  Otherwise the proofs are those of CodegenForallLin.v. *)
 From Coq Require Import List ZArith NArith String Bool Lia.
 From SCC Require Import Base.Sexp Lang.AxSyn Model.ParMoves Model.Backend Model.Linearize Model.LinCheck Model.Capacity
   Sem.WfGuard Sem.WfGuard64 Proof.LinBasics Proof.LinTyping Proof.SubstGraph Proof.CodegenTotal Proof.CodegenForall
@@ -51,6 +53,8 @@ Hypothesis L_def : forall l ps, lookup_label S l = Some ps -> L (show_ident l ++
 Hypothesis L_type : forall t xs k, type_xtors S t = Some xs ->
   L (type_label t k) /\ forall x, L (type_label t k +++ "_" +++ x).
 Hypothesis X_small : xtors_le XM types = true.
+(* fewer than 2 * SM temporaries exist: a variable is copied fewer than SM times by a Substitute that compiles *)
+Hypothesis Hcap : forall p t, b_temporary_from_position B p = Ok t -> (p < 2 * SM)%N.
 
 Ltac ub H :=
   match type of H with
@@ -68,6 +72,87 @@ Lemma tag_smallP t d tag p : lookup_type types t = Ok d -> xtor_position (txtors
 Proof.
   intros LT XP. apply lookup_type_In in LT. apply xtor_position_lt in XP.
   unfold xtors_le in X_small. rewrite forallb_forall in X_small. specialize (X_small d LT). apply N.leb_le in X_small. lia.
+Qed.
+
+(* ---------- the number of copies of one variable, from the capacity ---------- *)
+Lemma conn_targets c nc : forall tm rm am, fold_left (conn_step B c nc) tm rm = Ok am ->
+  forall b tg, In (b, tg) tm -> exists ts, rmap (fun t => variable_temporary B Snd nc t) tg = Ok ts.
+Proof.
+  induction tm as [|[b0 tg0] tm IH]; intros rm am H b tg HI; [destruct HI|]. cbn [fold_left] in H.
+  destruct HI as [HE|HI]; [|exact (IH _ _ H b tg HI)]. inversion HE; subst b0 tg0. clear IH.
+  destruct (conn_step B c nc rm (b, tg)) as [m'|e] eqn:ST; [|rewrite conn_fold_err in H; discriminate].
+  unfold conn_step in ST. destruct rm as [m|e]; cbn [rbind] in ST; [|discriminate].
+  assert (G : forall m0 m1, ins B c nc Snd b tg m0 = Ok m1 -> exists ts, rmap (fun t => variable_temporary B Snd nc t) tg = Ok ts).
+  { intros m0 m1 K. unfold ins in K. ub K. ub K. eauto. }
+  destruct (bchi b); [ub ST; eapply G; eauto|ub ST; eapply G; eauto|eapply G; eauto].
+Qed.
+Lemma rmap_all {X Y} (f : X -> res Y) : forall l ys, rmap f l = Ok ys -> forall x, In x l -> exists y, f x = Ok y.
+Proof.
+  induction l as [|x0 l IH]; intros ys H x HI; [destruct HI|]. cbn [rmap] in H. ub H. ub H.
+  destruct HI as [<-|HI]; [eauto|eapply IH; eauto].
+Qed.
+Lemma position_of_inj c : forall k a b p, position_of c a k = Some p -> position_of c b k = Some p -> a = b.
+Proof.
+  induction c as [|x c IH]; intros k a b p Ha Hb; cbn [position_of] in Ha, Hb; [discriminate|].
+  destruct (N.eqb_spec (idn (bvar x)) a) as [Ea|Ea], (N.eqb_spec (idn (bvar x)) b) as [Eb|Eb].
+  - congruence.
+  - inversion Ha; subst. apply position_of_lt in Hb. lia.
+  - inversion Hb; subst. apply position_of_lt in Ha. lia.
+  - eapply IH; eauto.
+Qed.
+Lemma pigeon (f : N -> option N) (m : N) (l : list N) : NoDup l ->
+  (forall a, In a l -> exists p, f a = Some p /\ (p < m)%N) ->
+  (forall a b p, f a = Some p -> f b = Some p -> a = b) ->
+  (N.of_nat (List.length l) <= m)%N.
+Proof.
+  intros ND HP INJ.
+  set (g := fun a => match f a with Some p => N.to_nat p | None => O end).
+  assert (GI : forall a b, In a l -> In b l -> g a = g b -> a = b).
+  { intros a b Ha Hb E. destruct (HP a Ha) as (pa & Fa & _). destruct (HP b Hb) as (pb & Fb & _).
+    unfold g in E. rewrite Fa, Fb in E. apply N2Nat.inj in E. subst pb. exact (INJ a b pa Fa Fb). }
+  assert (NDg : NoDup (map g l)).
+  { clear HP. revert ND GI. induction l as [|a l IH]; intros ND GI; [constructor|].
+    inversion ND as [|? ? NI ND']; subst. cbn [map]. constructor.
+    - intros HI. apply in_map_iff in HI as (b & Eg & Hb). apply NI.
+      rewrite (GI a b (or_introl eq_refl) (or_intror Hb) (eq_sym Eg)). exact Hb.
+    - apply IH; [exact ND'|]. intros x y Hx Hy. apply GI; right; assumption. }
+  assert (IN : incl (map g l) (seq 0 (N.to_nat m))).
+  { intros x Hx. apply in_map_iff in Hx as (a & <- & Ha). destruct (HP a Ha) as (p & Fp & Lp). unfold g. rewrite Fp. apply in_seq. lia. }
+  pose proof (NoDup_incl_length NDg IN) as LE. rewrite map_length, seq_length in LE. lia.
+Qed.
+Lemma transpose_shape re c : forall b tg, In (b, tg) (transpose re c) ->
+  tg = map (fun p => idn (bvar (fst p))) (filter (fun p => N.eqb (idn (bvar b)) (idn (snd p))) re).
+Proof.
+  unfold transpose.
+  assert (G : forall l m0,
+            (forall b tg, In (b, tg) m0 -> tg = map (fun p => idn (bvar (fst p))) (filter (fun p => N.eqb (idn (bvar b)) (idn (snd p))) re)) ->
+            forall b tg, In (b, tg) (fold_left (fun m b =>
+               map_insert binding_compare b
+                 (map (fun p => idn (bvar (fst p))) (filter (fun p => N.eqb (idn (bvar b)) (idn (snd p))) re)) m) l m0) ->
+            tg = map (fun p => idn (bvar (fst p))) (filter (fun p => N.eqb (idn (bvar b)) (idn (snd p))) re)).
+  { induction l as [|b0 l IH]; intros m0 H0 b tg H; cbn [fold_left] in H; [eapply H0; exact H|].
+    eapply IH; [|exact H]. intros b1 tg1 H1. apply In_map_insert in H1 as [E|H1]; [|eapply H0; exact H1].
+    inversion E; subst. reflexivity. }
+  intros b tg. apply G. intros ? ? [].
+Qed.
+Lemma NoDup_map_filter {X Y} (f : X -> Y) (P : X -> bool) : forall l, NoDup (map f l) -> NoDup (map f (filter P l)).
+Proof.
+  induction l as [|x l IH]; intros ND; cbn [filter map]; [constructor|]. cbn [map] in ND. inversion ND as [|? ? NI ND']; subst.
+  destruct (P x); [|apply IH; exact ND']. cbn [map]. constructor; [|apply IH; exact ND'].
+  intros HI. apply NI. apply in_map_iff in HI as (y & E & Hy). apply filter_In in Hy as [Hy _]. apply in_map_iff. eauto.
+Qed.
+Lemma targets_bound re c' code : NoDup (ids (map fst re)) ->
+  code_exchange B (transpose re c') c' (map fst re) = Ok code ->
+  forall b tg, In (b, tg) (transpose re c') -> (N.of_nat (List.length tg) <= SM)%N.
+Proof.
+  intros ND H b tg HI. unfold code_exchange in H. ub H. rewrite connections_unfold in E.
+  destruct (conn_targets _ _ _ _ _ E b tg HI) as [ts RM].
+  apply (pigeon (fun t => position_of (map fst re) t 0) SM).
+  - rewrite (transpose_shape _ _ _ _ HI). apply NoDup_map_filter. unfold ids in ND. rewrite map_map in ND. exact ND.
+  - intros t Ht. destruct (rmap_all _ _ _ RM t Ht) as [y VT]. unfold variable_temporary in VT.
+    destruct (position_of (map fst re) t 0) as [p|]; [|discriminate]. exists p. split; [reflexivity|].
+    apply Hcap in VT. cbn [tnum_n] in VT. lia.
+  - intros a0 b0 p Ha Hb. eapply position_of_inj; eauto.
 Qed.
 
 (* reference counts of an explicit substitution *)
@@ -114,12 +199,12 @@ Proof.
 Qed.
 
 Definition stmt_QLP (s : stmt) : Prop :=
-  forall c c' lc code lc', ids c' = ids c -> lin_check S c s = true -> stmt_immP SM lit s = true ->
+  forall c c' lc code lc', ids c' = ids c -> lin_check S c s = true -> stmt_immP lit s = true ->
     code_statement B types s c' lc = Ok (code, lc') -> Q code.
 
 Lemma sw_loop_QLP (fresh : string) (HF : forall x, L (fresh +++ "_" +++ x)) (c0 c0' : ctx) (E0 : ids c0' = ids c0) : forall cls,
   Forall (fun cl => stmt_QLP (cl_body cl)) cls ->
-  lin_clauses_sw S c0 cls = true -> clauses_immP SM lit cls = true ->
+  lin_clauses_sw S c0 cls = true -> clauses_immP lit cls = true ->
   forall lc code lc',
   (fix go (l : list clause) (lc : N) : res (list Code * N) :=
      match l with
@@ -145,7 +230,7 @@ Proof.
 Qed.
 Lemma cr_loop_QLP (fresh : string) (HF : forall x, L (fresh +++ "_" +++ x)) (env env' : ctx) (E0 : ids env' = ids env) : forall cls,
   Forall (fun cl => stmt_QLP (cl_body cl)) cls ->
-  lin_clauses_cr S env cls = true -> clauses_immP SM lit cls = true ->
+  lin_clauses_cr S env cls = true -> clauses_immP lit cls = true ->
   forall lc code lc',
   (fix go (l : list clause) (lc : N) : res (list Code * N) :=
      match l with
@@ -170,12 +255,12 @@ Proof.
     + eapply IH; eauto.
 Qed.
 
-Lemma imm_switchP v t cls : stmt_immP SM lit (Switch v t cls) = clauses_immP SM lit cls.
+Lemma imm_switchP v t cls : stmt_immP lit (Switch v t cls) = clauses_immP lit cls.
 Proof.
   cbn [stmt_immP]. induction cls as [|[[x cx] b] r IH]; [reflexivity|].
   cbn [clauses_immP forallb cl_body snd]. rewrite IH. reflexivity.
 Qed.
-Lemma imm_createP v t env cls next : stmt_immP SM lit (Create v t env cls next) = clauses_immP SM lit cls && stmt_immP SM lit next.
+Lemma imm_createP v t env cls next : stmt_immP lit (Create v t env cls next) = clauses_immP lit cls && stmt_immP lit next.
 Proof.
   cbn [stmt_immP]. f_equal. induction cls as [|[[x cx] b] r IH]; [reflexivity|].
   cbn [clauses_immP forallb cl_body snd]. rewrite IH. reflexivity.
@@ -187,12 +272,12 @@ Proof.
     destruct x as [body lcb]; inversion CS; subst; clear CS; cbn [fst snd]; apply Qapp; try apply m_mark;
     pose proof (lin_nodup _ _ _ LN) as NDc.
   - (* Substitute *)
-    cbn [lin_check] in LN. cbn [stmt_immP] in IM. sp LN L0 L1. sp L1 Lh Ln. sp IM I0 In_.
+    cbn [lin_check] in LN. cbn [stmt_immP] in IM. sp LN L0 L1. sp L1 Lh Ln.
     ub E. destruct x as [c1 lc1]. ub E. ub E. destruct x0 as [c3 lc3]. inversion E; subst.
     apply Qapp; [|apply Qapp].
-    + eapply cwc_QLP; [|eauto]. intros b tg Hb. apply transpose_len in Hb. apply N.leb_le in I0. lia.
+    + eapply cwc_QLP; [|eauto]. intros b tg Hb. eapply targets_bound; [exact (lin_nodup _ _ _ Ln)|eassumption|exact Hb].
     + eapply (exchange_Q B (cmp_eq B OKB) T Q Qnil Qapp Ttfp m_mov m_store_temporary m_restore_temporary); eauto.
-    + eapply (IHs _ _ _ _ _ eq_refl Ln In_); eauto.
+    + eapply (IHs _ _ _ _ _ eq_refl Ln IM); eauto.
   - (* Call *)
     cbn [lin_check] in LN. sp LN L0 L1. destruct (lookup_label S l) as [ps|] eqn:LL; [|discriminate].
     inversion E; subst. apply m_jump_label. eapply L_def; eauto.
@@ -277,7 +362,7 @@ Proof.
 Qed.
 
 Lemma translate_QLP : forall defs lc code lc',
-  forallb (fun d => lin_check S (dctx d) (dbody d) && stmt_immP SM lit (dbody d)) defs = true ->
+  forallb (fun d => lin_check S (dctx d) (dbody d) && stmt_immP lit (dbody d)) defs = true ->
   (forall d, In d defs -> L (show_ident (dname d) +++ "_")) ->
   translate B types defs lc = Ok (code, lc') -> Q code.
 Proof.
